@@ -92,3 +92,97 @@ theorem comps_complete : ∀ (bs : List Bound) (l : List Nat), bs ≠ [] → Wit
           simp only [List.sum_cons, Int.natCast_add]; omega
         rw [e]; exact this
 #print axioms comps_complete
+
+theorem guardOk_spec {n : Int} {bs : List Bound} (h : guardOk n bs = true) :
+    0 ≤ n ∧ (sumMin bs : Int) ≤ n ∧ ∀ s, sumMax bs = some s → n ≤ (s : Int) := by
+  unfold guardOk at h
+  simp only [Bool.and_eq_true, decide_eq_true_eq] at h
+  refine ⟨h.1.1, h.1.2, ?_⟩
+  intro s hs
+  rw [hs] at h
+  simpa using h.2
+
+/-- soundness: everything produced is a bounded composition of `n` -/
+theorem comps_sound : ∀ (bs : List Bound) (n : Int) (l : List Nat), l ∈ comps n bs → Within l bs ∧ (l.sum : Int) = n
+  | [], _, _, h => by simp [comps] at h
+  | [b], n, l, h => by
+    unfold comps at h
+    split at h
+    · rename_i hg
+      obtain ⟨h0, h1, h2⟩ := guardOk_spec hg
+      simp only [List.mem_singleton] at h
+      subst h
+      simp only [sumMin, List.map_cons, List.map_nil, List.sum_cons, List.sum_nil, Nat.add_zero] at h1
+      refine ⟨⟨by omega, ?_, trivial⟩, by simp; omega⟩
+      intro m hm
+      have := h2 m (by simp [sumMax, hm])
+      omega
+    · simp at h
+  | b :: b' :: bs, n, l, h => by
+    unfold comps at h
+    split at h
+    · rename_i hg
+      obtain ⟨h0, _, _⟩ := guardOk_spec hg
+      simp only [List.mem_flatMap, List.mem_map, List.mem_range] at h
+      obtain ⟨i, ⟨j, hj, rfl⟩, xs, hxs, rfl⟩ := h
+      obtain ⟨hw, hsum⟩ := comps_sound (b' :: bs) _ xs hxs
+      refine ⟨⟨by omega, ?_, hw⟩, by simp only [List.sum_cons, Int.natCast_add]; omega⟩
+      intro m hm
+      rw [hm] at hj
+      simp only at hj
+      omega
+    · simp at h
+#print axioms comps_sound
+
+/-- C10 for products: in a bounded composition of `n`, part `i` is at most `n` minus the minimum
+sizes of all the other parts — i.e. child `i` is read at sizes `≤ n - shift_i` with
+`shift_i = Σ min − min_i` (`CartesianProductStrategy.shifts`). -/
+theorem within_part_le : ∀ (l : List Nat) (bs : List Bound), Within l bs →
+    ∀ i, i < l.length → l.getD i 0 + (sumMin bs - (bs.getD i (0, none)).1) ≤ l.sum
+  | [], [], _, i, hi => by simp at hi
+  | x :: xs, b :: bs, h, i, hi => by
+    obtain ⟨h1, _, h3⟩ := h
+    have hmin := sumMin_le_of_within xs bs h3
+    cases i with
+    | zero =>
+      simp only [List.getD_cons_zero, sumMin, List.map_cons, List.sum_cons] at *
+      omega
+    | succ j =>
+      have := within_part_le xs bs h3 j (by simpa using hi)
+      simp only [List.getD_cons_succ, sumMin, List.map_cons, List.sum_cons] at *
+      have hb : (bs.getD j (0, none)).1 ≤ (bs.map (·.1)).sum := by
+        clear this hmin h3 hi h1
+        induction bs generalizing j with
+        | nil => simp
+        | cons c cs ih =>
+          cases j with
+          | zero => simp
+          | succ k => have := ih k; simp only [List.getD_cons_succ, List.map_cons, List.sum_cons]; omega
+      omega
+  | [], _ :: _, h, _, _ => by cases h
+  | _ :: _, [], h, _, _ => by cases h
+
+theorem product_local (bs : List Bound) (n : Nat) (l : List Nat) (h : l ∈ comps (n : Int) bs)
+    (i : Nat) (hi : i < l.length) : l.getD i 0 + (sumMin bs - (bs.getD i (0, none)).1) ≤ n := by
+  obtain ⟨hw, hs⟩ := comps_sound bs n l h
+  have := within_part_le l bs hw i hi
+  omega
+#print axioms product_local
+
+/-- model of `ReverseRule.shifts` (strategies/rule.py:1003-1009) -/
+def reverseShifts (s : List Int) (idx : Nat) : List Int :=
+  let p := - s.getD idx 0
+  p :: ((s.eraseIdx idx).map (· + p))
+
+/-- C10 for quotients (`Quotient._a`): the compositions range over total size `n + shift_idx`; the part
+of child `j` is then at most `n - (shift_j - shift_idx)`, which is the shift the reverse rule declares
+for that child (`s_j + pshift`, `pshift = -s_idx`). Shifts are those of the original product:
+`shift_k = Σ min − min_k`. -/
+theorem quotient_local (bs : List Bound) (n idx : Nat) (l : List Nat)
+    (h : l ∈ comps ((n + (sumMin bs - (bs.getD idx (0, none)).1) : Nat) : Int) bs)
+    (j : Nat) (hj : j < l.length) :
+    (l.getD j 0 : Int) ≤ (n : Int) -
+      (((sumMin bs - (bs.getD j (0, none)).1 : Nat) : Int) - ((sumMin bs - (bs.getD idx (0, none)).1 : Nat) : Int)) := by
+  have := product_local bs _ l h j hj
+  omega
+#print axioms quotient_local
